@@ -10,6 +10,22 @@ from .. import cfg as C
 MARGIN = "basana.backtesting.lending.margin"
 
 
+def margin_check_fn(ctx):
+    """The function that judges an update by its margin level: it calls ``_calculate_margin_level`` and raises.  In the pinned snapshot
+    that is MarginLoans._check_margin_level (called by CheckMarginLevel.check); after a move-method refactoring it can be the rule's own
+    ``check``.  Parameter positions (self, balances, holds, borrowed) are the same in both."""
+    for q in (f"{MARGIN}.MarginLoans._check_margin_level", f"{MARGIN}.CheckMarginLevel.check"):
+        fn = ctx.repo.funcs.get(q)
+        if fn is None:
+            continue
+        if any((A.call_name(c) or "").endswith("._calculate_margin_level") for c in A.func_calls(fn)) \
+                and any(isinstance(n, ast.Raise) for n in C.walk_shallow(fn.node)):
+            ctx.analysed_funcs.add(q)
+            return fn
+    from ..loader import AnchorMissing
+    raise AnchorMissing("no function in basana.backtesting.lending.margin calls _calculate_margin_level and raises")
+
+
 def margin_rule_early_exits(ctx) -> List[Dict[str, Any]]:
     """Early ``return``s of MarginLoans._check_margin_level that precede the raise guard, each with the truth table
     of its condition over the three orderings of (updated borrowed amount 'new', committed borrowed amount 'old').
@@ -17,7 +33,7 @@ def margin_rule_early_exits(ctx) -> List[Dict[str, Any]]:
     Recognised idiom:  ``if all(<amount> <op> <committed>.get(<symbol>, 0) for <symbol>, <amount> in
     <updated_borrowed>.items()): return``  with ``<committed>`` defined as ``...account_balances.borrowed``.
     Anything else that returns before the guard is reported with ``table=None`` (unrecognised)."""
-    fn = ctx.func(f"{MARGIN}.MarginLoans._check_margin_level")
+    fn = margin_check_fn(ctx)
     raises = [n for n in C.walk_shallow(fn.node) if isinstance(n, ast.Raise)]
     ctx.require(raises, "_check_margin_level has no raise")
     first_raise = min(A.seq(r) for r in raises)
@@ -70,7 +86,7 @@ def margin_rule_early_exits(ctx) -> List[Dict[str, Any]]:
                         # the map must be the committed borrowed map
                         for s in A.stores(fn):
                             if isinstance(s.target, ast.Name) and s.target.id == e.func.value.id \
-                                    and isinstance(s.node, ast.Assign) and (A.dotted(s.node.value) or "").endswith(
+                                    and isinstance(s.node, ast.Assign) and (A.dotted(N.expand(fn, s.node.value)) or "").endswith(
                                         "account_balances.borrowed"):
                                 return "old"
                     return None
